@@ -146,6 +146,9 @@ func (e *evaluator) eval1(x ast.Expr) *Term {
 			return mk("elem", xt).withType(e.typeOf(x))
 		}
 		t := mk("idx", xt, it)
+		if st := simplify(t); st.Op == "slice" {
+			t = st // a half of a byte string cut at its first separator
+		}
 		e.emitIndex(x, x.X, t)
 		return t
 	case *ast.SliceExpr:
@@ -469,17 +472,24 @@ func (e *evaluator) inlineable(g *Func) bool {
 	}
 	// unexported one-line value helpers (an expression given a name, e.g. a point in time computed from a record and
 	// module parameters): the call is its expression over the arguments
-	if n == 1 && len(g.Res) == 1 && len(ret.Results) == 1 && g.Obj != nil && !g.Obj.Exported() && g.pkgName() == "keeper" {
+	if len(g.Res) == 1 && len(ret.Results) == 1 && g.Obj != nil && !g.Obj.Exported() && g.pkgName() == "keeper" && !roleValueFunc(g) {
 		T := g.Res[0].Type()
-		_, isSlice := T.Underlying().(*types.Slice)
+		sl, isSlice := T.Underlying().(*types.Slice)
 		b, isBasic := T.Underlying().(*types.Basic)
-		if !isErrorType(T) && !isSlice && !(isBasic && b.Kind() == types.Bool) {
+		// an amount (a named list of coins) is a value like any other; byte strings and plain lists stay calls
+		amount := false
+		if _, named := types.Unalias(T).(*types.Named); named && isSlice {
+			if eb, ok := sl.Elem().Underlying().(*types.Basic); !ok || eb.Kind() != types.Byte {
+				amount = true
+			}
+		}
+		if !isErrorType(T) && (!isSlice || amount) && !(isBasic && b.Kind() == types.Bool) {
 			if _, isCall := ast.Unparen(ret.Results[0]).(*ast.CallExpr); isCall {
 				return true
 			}
 		}
 		// a named re-slicing of a parameter ("the key without its family prefix")
-		if _, isSl := ast.Unparen(ret.Results[0]).(*ast.SliceExpr); isSl && isSlice {
+		if _, isSl := ast.Unparen(ret.Results[0]).(*ast.SliceExpr); isSl && isSlice && n == 1 {
 			return true
 		}
 	}
